@@ -263,8 +263,10 @@ def run(ctx):
                 continue
             seqs.append(seq)
     seqs += [("G",), ("H",), ("G", "H"), ("H", "G"), ("A", "H"), ("H", "A"), ("G", "B"), ("K",), ("A", "K"), ("K", "A"), ("B", "K"), ("D", "L"), ("L", "D"), ("L", "F")]
+    # numbers of experiments that are not powers of two (the combined tables are assembled from all of them)
+    seqs += [("A", "B", "C"), ("C", "A", "B", "K", "E")]
     if not quick:
-        seqs += [("G", "H", "A"), ("A", "G", "H"), ("G", "A", "H")]
+        seqs += [("G", "H", "A"), ("A", "G", "H"), ("G", "A", "H"), ("A", "B", "C", "K", "E", "G"), ("A", "B", "C", "K", "E", "G", "H")]
     jobs = []
     for seq in seqs:
         new = bool(set(seq) & set("DEFGHKL"))
